@@ -68,5 +68,6 @@ def _fl(f):
 INPUT_CLASSES = {
     'p_boundary': lambda f: any(x in (0.0, 1.0) for x in _fl(f)),
     'gev_unbounded': lambda f: len(_fl(f)) >= 3 and _fl(f)[2] <= -1.0,
+    'pareto_tiny_shape': lambda f: f.get('site', '').startswith('Pareto') and len(_fl(f)) >= 1 and 0 < _fl(f)[0] < 1.0 / 700.0,
     'gev_tiny_shape': lambda f: len(_fl(f)) >= 3 and abs(_fl(f)[2]) < 1e-6 and _fl(f)[2] != 0.0,
 }
